@@ -37,7 +37,12 @@ def _send(sx, ep, api, pl, idx, sync, chop):
     if api == "message":
         p.sendMessage(pl, isBinary=True, sync=sync)
     elif api == "message-frag":
-        fs = sx.int("fragsize%d" % idx, 1, n + 1)
+        if n > 1000:
+            # long boundary payloads: fragment sizes around the length-encoding boundaries (a free size would mean n frames)
+            menu = [125, 126, 127, 32768, n - 1, n, n + 1]
+            fs = menu[sx.choice("fragsize%d" % idx, len(menu))]
+        else:
+            fs = sx.int("fragsize%d" % idx, 1, n + 1)
         p.sendMessage(pl, isBinary=False if idx % 2 else True, fragmentSize=fs, sync=sync)
         return not (idx % 2)
     elif api == "autofrag":
